@@ -186,6 +186,9 @@ fn tag_call_mismatch(exp: &Outcome, obs: &Obs, mode: Mode) -> Vec<&'static str> 
             let k2 = classify_panic(msg);
             if is_order_kind(*kind) || k2.map(is_order_kind).unwrap_or(false) {
                 vec!["C04"]
+            } else if *kind == PanicKind::CannotUnmock {
+                // "if no function was registered the call panics naming the method": another error came out
+                vec!["C07", "C16"]
             } else if is_fallthrough_kind(*kind) || k2.map(is_fallthrough_kind).unwrap_or(false) {
                 vec!["C07"]
             } else {
@@ -726,9 +729,15 @@ fn check_inner(case: &Case, trace: &Trace, cfg: BuildCfg, variant: Variant) -> C
                 if let Obs::PanicString(msg) = &o.obs {
                     observed_errors.push(msg.clone());
                     if !naming_ok(&exp, msg, &spec) {
+                        // the properties that promise a panic *naming the call* for this kind of error
+                        let props = match &exp {
+                            Outcome::MockPanic { kind: PanicKind::CannotUnmock, .. } => vec!["C19", "C16"],
+                            Outcome::MockPanic { kind: PanicKind::NoMockImpl | PanicKind::NoMatch, .. } => vec!["C19", "C07"],
+                            _ => vec!["C19"],
+                        };
                         return result(
                             Some(Discrepancy {
-                                props: vec!["C19"],
+                                props,
                                 at,
                                 expected: format!("message naming the method and pattern of {exp:?}"),
                                 observed: short(msg),
